@@ -2,6 +2,8 @@ package engine
 
 import (
 	"fmt"
+	"go/ast"
+	"go/token"
 	"go/types"
 	"regexp"
 	"strings"
@@ -456,6 +458,57 @@ func (ex *Exec) applyContract(st *State, fr *Frame, x *ssa.Call, c *Contract, ke
 		vars["result0"] = rets[0]
 	}
 	env.bindLets(c, true)
+	// definitional postconditions `result.F == E` (E not mentioning the result) of a struct-valued result: the field
+	// IS E rather than a fresh symbol constrained to equal it - the same meaning, but later operations on the field
+	// (constant folding, case distinctions over constants) see the term
+	if results.Len() == 1 {
+		if sv, isStruct := rets[0].(StructV); isStruct {
+			changed := false
+			for _, e := range c.Ensures {
+				for _, cj := range splitConj(e.Expr) {
+					be, ok := cj.(*ast.BinaryExpr)
+					if !ok || be.Op != token.EQL {
+						continue
+					}
+					sel, ok := be.X.(*ast.SelectorExpr)
+					if !ok {
+						continue
+					}
+					if id, ok := sel.X.(*ast.Ident); !ok || id.Name != "result" || mentionsIdent(be.Y, "result") || mentionsIdent(be.Y, "result0") {
+						continue
+					}
+					stt, ok := sv.Typ.Underlying().(*types.Struct)
+					if !ok {
+						continue
+					}
+					for fi := 0; fi < stt.NumFields(); fi++ {
+						old, isScalar := sv.F[fi].(Scalar)
+						if stt.Field(fi).Name() != sel.Sel.Name || !isScalar {
+							continue
+						}
+						rv, _ := env.eval(be.Y)
+						if u, isU := rv.(UConst); isU {
+							rv = Scalar{ex.intConst(u.V, stt.Field(fi).Type())}
+						}
+						if rs, ok := rv.(Scalar); ok && rs.T.S.Eq(old.T.S) {
+							nf := append([]Val{}, sv.F...)
+							nf[fi] = rs
+							sv = StructV{Typ: sv.Typ, F: nf}
+							changed = true
+						}
+					}
+				}
+			}
+			if changed {
+				rets[0] = sv
+				for k, v := range vars {
+					if _, same := v.(StructV); same && (k == "result" || k == "result0" || (len(c.Results) > 0 && k == c.Results[0])) {
+						vars[k] = sv
+					}
+				}
+			}
+		}
+	}
 	for _, e := range c.Ensures {
 		st.assume(env.termBool(e.Expr))
 	}
@@ -743,4 +796,28 @@ func (ex *Exec) copyOp(st *State, fr *Frame, x *ssa.Call, args []Val) Val {
 	st.assume(App(fmt.Sprintf("forall ((qi %s))", ex.idxSort()), BoolSort, body))
 	st.Mem[dst.Region] = arr
 	return Scalar{n}
+}
+
+// splitConj: the top-level conjuncts of a spec expression
+func splitConj(e ast.Expr) []ast.Expr {
+	switch x := e.(type) {
+	case *ast.ParenExpr:
+		return splitConj(x.X)
+	case *ast.BinaryExpr:
+		if x.Op == token.LAND {
+			return append(splitConj(x.X), splitConj(x.Y)...)
+		}
+	}
+	return []ast.Expr{e}
+}
+
+func mentionsIdent(e ast.Expr, name string) bool {
+	found := false
+	ast.Inspect(e, func(n ast.Node) bool {
+		if id, ok := n.(*ast.Ident); ok && id.Name == name {
+			found = true
+		}
+		return !found
+	})
+	return found
 }
